@@ -409,7 +409,7 @@ func c20SerializeParse(maxHash int) {
 	if verifrt.Symbolic() {
 		c20Record = false
 		verifrt.Assert(len(c20RecCount) == 2, "Iterated called by Serialize and by the parsed function")
-		verifrt.Assert(c20RecCount[0] == c20RecCount[1] && c20RecCount[0] == c20RefCount(ser[10]), "same count on both sides")
+		verifrt.Assert(c20RecCount[0] == c20RecCount[1] && c20RecCount[0] == c20RefCount(ser[10]), "parsed function derives the serialized key (same count on both sides)")
 		for i := 0; i < 8; i++ {
 			verifrt.Assert(c20RecSalt[0][i] == c20RecSalt[1][i] && c20RecSalt[0][i] == salt[i], "same salt on both sides")
 		}
@@ -418,6 +418,6 @@ func c20SerializeParse(maxHash int) {
 		return
 	}
 	for i := range key1 {
-		verifrt.Assert(key1[i] == key2[i], "parsed function derives the serialized key")
+		verifrt.Assert(key1[i] == key2[i], "parsed function derives the serialized key (same count on both sides)")
 	}
 }
